@@ -130,6 +130,19 @@ def refkinds():
     return _REFKINDS
 
 
+def refidents():
+    """every identifier (name, attribute, parameter) of the reference tree - what is NOT in here is new"""
+    if not hasattr(refidents, '_c'):
+        import json
+        p = os.path.join(os.path.dirname(os.path.abspath(__file__)), 'refidents.json')
+        try:
+            with open(p) as f:
+                refidents._c = set(json.load(f))
+        except OSError:
+            refidents._c = set()
+    return refidents._c
+
+
 def refnames():
     global _REFNAMES
     if _REFNAMES is None:
@@ -226,8 +239,11 @@ class Repo:
         # repo-wide pre-passes that must see every module before any per-module normalisation
         if os.environ.get('SA_NO_CANON') != '1':
             from . import canon as _cn0
+            ridents = refidents()
             for rel, m_ in self.modules.items():
                 if _cn0.strip_local_annotations(m_):
+                    m_.reindex()
+                if ridents and _cn0.inline_named_constants(rel, m_, ridents):
                     m_.reindex()
             fr = _cn0.normalise_function_names(self)
             if fr:
